@@ -1,3 +1,75 @@
 import TTModel.Proto
-/-! C19 driver — stub (not built yet): answers `bad-op` to everything. -/
-def main : IO Unit := TT.Proto.mainLoop fun _ => "bad-op"
+import TTModel.C13_Json
+import TTModel.C13_Codec
+import TTModel.C19_CLI
+/-! C19 driver: create_jacobians / make_unconstrained / create_meanfield's rewriting on wire-encoded JSON. -/
+open TT.Proto TT.C13 TT.C13.Json TT.C19
+
+def toF : JNumber → Float
+  | .int n => Float.ofInt n
+  | .flt x => x
+
+/-- StickBreakingTransform._inverse on a vector -/
+def stickInvF (y : List Float) : List Float :=
+  let k := y.length
+  let crop := y.take (k - 1)
+  let rec go : List Float → Float → Nat → List Float
+    | [], _, _ => []
+    | v :: vs, cum, i =>
+      let cum' := cum + v
+      let sf := 1.0 - cum'
+      let sf := if sf < 1.1754943508222875e-38 then 1.1754943508222875e-38 else sf
+      let off := Float.ofNat (k - (i + 1))
+      (Float.log v - Float.log sf + Float.log off) :: go vs cum' (i + 1)
+  go crop 0.0 0
+
+instance : CliNum JNumber where
+  isZero x := toF x == 0.0
+  isOne x := toF x == 1.0
+  pos x := toF x > 0.0
+  eq a b := toF a == toF b
+  zeroF := .flt 0.0
+  oneF := .flt 1.0
+  zeroI := .int 0
+  pred
+    | .int n => .int (n - 1)
+    | .flt x => .flt (x - 1.0)
+  toNat
+    | .int n => if n ≥ 0 then some n.toNat else none
+    | .flt _ => none
+  sub a b := .flt (toF a - toF b)
+  log a := .flt (Float.log (toF a))
+  logit a :=
+    -- SigmoidTransform._inverse clamps to [finfo.tiny, 1 - finfo.eps] (float32 in the CLI process)
+    let y := toF a
+    let y := if y < 1.1754943508222875e-38 then 1.1754943508222875e-38 else y
+    let y := if y > 1.0 - 1.1920928955078125e-07 then 1.0 - 1.1920928955078125e-07 else y
+    .flt (Float.log y - Float.log (1.0 - y))
+  stickInv ys := (stickInvF (ys.map toF)).map JNumber.flt
+
+def handle (line : String) : String :=
+  match splitWords line with
+  | ["ping"] => "pong"
+  | "jac" :: toks => match decodeAll toks with
+    | some j => match createJacobians j with
+      | some ids => "ok " ++ encodeStr (.arr ids)
+      | none => "raises"
+    | none => "bad-op"
+  | "unc" :: toks => match decodeAll toks with
+    | some j => match makeUnconstrained j with
+      | some r => "ok " ++ encodeStr (.arr [r.json, .arr r.unres, .arr r.params])
+      | none => "raises"
+    | none => "bad-op"
+  | "mf" :: toks => match decodeAll toks with
+    | some j => match meanfieldRewrite j with
+      | some r => "ok " ++ encodeStr r
+      | none => "raises"
+    | none => "bad-op"
+  | "collect" :: toks => match decodeAll toks with
+    | some j => match collect (subvalues j) with
+      | some ids => "ok " ++ encodeStr (.arr ids)
+      | none => "raises"
+    | none => "bad-op"
+  | _ => "bad-op"
+
+def main : IO Unit := mainLoop handle
